@@ -6,7 +6,7 @@ from .. import font_exec, gen
 PROPERTY = "C03"
 TRACE_MODULE = "FontTrace"
 TRACE_CFG = "FontTrace.cfg"
-RULE = ("random glyph-name sets (upper/lower case, dots, underscores, digits; with or without '.notdef') x glyph order lists "
+RULE = ("(every fourth case enters through compileVariableTTF or the first master of compileInterpolatable*FromDS, with the UFO as default master of a two-master family) random glyph-name sets (upper/lower case, dots, underscores, digits; with or without '.notdef') x glyph order lists "
         "(permutations, duplicates, unknown names, '.notdef' anywhere, absent; via public.glyphOrder or the glyphOrder "
         "argument) x code point assignments (BMP + supplementary, several per glyph, duplicates across glyphs) x variation "
         "sequences x {TTF, OTF} x {defcon, ufoLib2}; non-trivial = a requested order or a supplementary code point is "
@@ -96,6 +96,10 @@ def cases(tier, seed):
 
 
 def execute(case):
+    # every fourth case enters through a designspace function instead of compileTTF / compileOTF
+    k = sum(ord(ch) for ch in case["cid"])
+    if "via" not in case and k % 4 == 0 and not case["cid"].count("empty"):
+        case = dict(case, via="vf" if (case["flavor"] == "tt" and k % 8 == 0) else "interp")
     return [font_exec.font_record(case)]
 
 
